@@ -1859,8 +1859,9 @@ class BootstrapElectionModel(BaseElectionModel):
             # how many states have lower_q (or more) realizations with GOP victory
             lower_states = np.mean(agg_pred_margin_dist < 0, axis=1) > lower_q
 
-            potential_losses = pred_states - (~lower_states).astype(int)
-            potential_gains = upper_states.astype(int) - pred_states
+            # only a predicted win can be lost and only a predicted loss can be gained
+            potential_losses = ((pred_states - (~lower_states).astype(int)) > 0).astype(int)
+            potential_gains = ((upper_states.astype(int) - pred_states) > 0).astype(int)
 
         if self.called_contests is not None:
             # if there is a call, there is no uncertainty in the outcome
